@@ -58,10 +58,20 @@ Fixpoint has_del (n : snode) : bool :=
   | SEl name _ _ cs => str_eqb name (s2l "del") || existsb has_del cs
   end.
 
+Lemma no_del_no_deleted_active n : has_del n = false -> deleted_active false n = false.
+Proof.
+  induction n as [s|name a v cs IH] using snode_ind'; intros H; [reflexivity|].
+  cbn [has_del] in H. apply orb_false_iff in H as [Hn Hc]. cbn [deleted_active andb]. rewrite Hn. cbn [orb].
+  induction cs as [|c cs IHcs]; [reflexivity|]. cbn [existsb] in Hc. apply orb_false_iff in Hc as [H1 H2].
+  inversion IH as [|? ? Hc1 Hcs]; subst. cbn [existsb]. rewrite (Hc1 H1). cbn [orb]. apply IHcs; assumption.
+Qed.
+
 Lemma deactivate_no_del n : has_del n = false -> deactivate false n = n.
 Proof.
   induction n as [s|name a v cs IH] using snode_ind'; intros H; [reflexivity|].
-  cbn [has_del] in H. apply orb_false_iff in H as [Hn Hc]. cbn [deactivate andb]. rewrite Hn. cbn [orb]. f_equal.
+  cbn [deactivate]. destruct (is_foreign name) eqn:F.
+  { rewrite (no_del_no_deleted_active _ H). reflexivity. }
+  cbn [has_del] in H. apply orb_false_iff in H as [Hn Hc]. cbn [andb]. rewrite Hn. cbn [orb]. f_equal.
   induction cs as [|c cs IHcs]; [reflexivity|]. cbn [existsb] in Hc. apply orb_false_iff in Hc as [H1 H2].
   inversion IH as [|? ? Hc1 Hcs]; subst. cbn [map]. rewrite (Hc1 H1). f_equal. apply IHcs; assumption.
 Qed.
@@ -83,40 +93,68 @@ Definition is_inert_template (name : str) (attrs : list (str * str)) : bool :=
   str_eqb name (s2l "template") &&
   match attrs with [(k, v)] => str_eqb k (s2l "class") && str_eqb v (s2l "wm-diff-deleted-inert") | _ => false end.
 
-(* every script/style that has a <del> ancestor is the child of an inert template *)
-Fixpoint inert_ok (under_del inert_parent : bool) (n : snode) : bool :=
+(* every script/style that has a <del> ancestor lies inside an inert template, and that template is not itself inside
+   embedded SVG or MathML (where a <template> element is no HTML template and nothing is inert) *)
+Fixpoint inert_ok (under_del inert_anc in_foreign : bool) (n : snode) : bool :=
   match n with
   | SText _ => true
   | SEl name attrs _ cs =>
-      (negb (under_del && is_active name) || inert_parent) &&
-      forallb (inert_ok (under_del || str_eqb name (s2l "del")) (is_inert_template name attrs)) cs
+      (negb (under_del && is_active name) || inert_anc) &&
+      forallb (inert_ok (under_del || str_eqb name (s2l "del"))
+                        (inert_anc || (is_inert_template name attrs && negb in_foreign))
+                        (in_foreign || is_foreign name)) cs
   end.
 
 Lemma template_not_active : is_active (s2l "template") = false.
 Proof. vm_compute. reflexivity. Qed.
 Lemma template_not_del : str_eqb (s2l "template") (s2l "del") = false.
 Proof. reflexivity. Qed.
+Lemma template_not_foreign : is_foreign (s2l "template") = false.
+Proof. reflexivity. Qed.
 
-Theorem deactivate_inert n : forall u ip, inert_ok u ip (deactivate u n) = true.
+Lemma inert_ok_below_inert n : forall u f, inert_ok u true f n = true.
 Proof.
-  induction n as [s|name a v cs IH] using snode_ind'; intros u ip; [reflexivity|].
-  cbn [deactivate].
-  assert (Hkids : forallb (inert_ok (u || str_eqb name (s2l "del")) (is_inert_template name a))
-                          (map (deactivate (u || str_eqb name (s2l "del"))) cs) = true).
-  { apply forallb_forall. intros c' Hin'. apply in_map_iff in Hin' as [c [<- Hin]].
-    rewrite Forall_forall in IH. apply (IH c Hin). }
-  destruct (u && is_active name) eqn:E.
-  - cbn [inert_ok]. rewrite template_not_active, andb_false_r. cbn [negb orb andb forallb].
-    rewrite template_not_del, orb_false_r, andb_true_r.
-    replace (is_inert_template (s2l "template") [(s2l "class", s2l "wm-diff-deleted-inert")]) with true by reflexivity.
-    cbn [inert_ok]. rewrite orb_true_r. cbn [andb]. exact Hkids.
-  - cbn [inert_ok]. rewrite E. cbn [negb orb andb]. exact Hkids.
+  induction n as [s|name a v cs IH] using snode_ind'; intros u f; [reflexivity|].
+  cbn [inert_ok orb]. rewrite orb_true_r. cbn [andb].
+  apply forallb_forall. intros c Hin. rewrite Forall_forall in IH. apply (IH c Hin).
+Qed.
+
+Lemma inert_ok_no_deleted_active n : forall u ia f, deleted_active u n = false -> inert_ok u ia f n = true.
+Proof.
+  induction n as [s|name a v cs IH] using snode_ind'; intros u ia f H; [reflexivity|].
+  cbn [deleted_active] in H. apply orb_false_iff in H as [H1 H2].
+  cbn [inert_ok]. rewrite H1. cbn [negb orb andb].
+  apply forallb_forall. intros c Hin. rewrite Forall_forall in IH. apply (IH c Hin).
+  destruct (deleted_active (u || str_eqb name (s2l "del")) c) eqn:E; [|reflexivity].
+  assert (X : existsb (deleted_active (u || str_eqb name (s2l "del"))) cs = true) by (apply existsb_exists; exists c; split; assumption).
+  congruence.
+Qed.
+
+Lemma inert_wrap_ok u ia n : inert_ok u ia false (inert_wrap n) = true.
+Proof.
+  unfold inert_wrap. cbn [inert_ok]. rewrite template_not_active, andb_false_r. cbn [negb orb andb forallb].
+  replace (is_inert_template (s2l "template") [(s2l "class", s2l "wm-diff-deleted-inert")]) with true by reflexivity.
+  cbn [negb andb]. rewrite orb_true_r, andb_true_r. apply inert_ok_below_inert.
+Qed.
+
+Theorem deactivate_inert n : forall u ia, inert_ok u ia false (deactivate u n) = true.
+Proof.
+  induction n as [s|name a v cs IH] using snode_ind'; intros u ia; [reflexivity|].
+  cbn [deactivate]. destruct (is_foreign name) eqn:F.
+  - destruct (deleted_active u (SEl name a v cs)) eqn:D; [apply inert_wrap_ok|].
+    apply inert_ok_no_deleted_active. exact D.
+  - assert (Hkids : forall ia', forallb (inert_ok (u || str_eqb name (s2l "del")) ia' false)
+                            (map (deactivate (u || str_eqb name (s2l "del"))) cs) = true).
+    { intros ia'. apply forallb_forall. intros c' Hin'. apply in_map_iff in Hin' as [c [<- Hin]].
+      rewrite Forall_forall in IH. apply (IH c Hin). }
+    destruct (u && is_active name) eqn:E; [apply inert_wrap_ok|].
+    cbn [inert_ok]. rewrite E, F. cbn [negb orb andb]. apply Hkids.
 Qed.
 
 (* in the combined view every script/style below a deletion marker sits in an inert template *)
 Theorem combined_view_inert old new ops ic dc body :
   let v := view_doc KCombined old new ops ic dc body in
-  forallb (inert_ok false false) (d_body v) = true /\ forallb (inert_ok false false) (d_head v) = true.
+  forallb (inert_ok false false false) (d_body v) = true /\ forallb (inert_ok false false false) (d_head v) = true.
 Proof.
   cbn [view_doc d_body d_head]. split; apply forallb_forall; intros x Hx; apply in_map_iff in Hx as [n [<- _]]; apply deactivate_inert.
 Qed.
